@@ -29,10 +29,14 @@ use crate::proto::message::{
 use crate::utils::{box_future, stream_protocol, BoxFuture};
 use crate::{Event, Result, StreamRequester, ToBehaviourEvent, ToHandlerEvent};
 
-type Sink = FramedWrite<libp2p_swarm::Stream, Codec>;
+type Sink = FramedWrite<crate::RawStream, Codec>;
 type BlockWithCid<const S: usize> = (CidGeneric<S>, Vec<u8>);
 
 const MAX_WANTLIST_ENTRIES_PER_PEER: usize = 1024;
+
+#[cfg(beetswap_verif)]
+#[path = "verif/server.rs"]
+pub mod verif;
 
 #[derive(Debug)]
 pub(crate) struct ServerBehaviour<const S: usize, B>
@@ -353,7 +357,7 @@ enum SinkState {
 }
 
 impl<const S: usize> ServerConnectionHandler<S> {
-    pub(crate) fn set_stream(&mut self, stream: libp2p_swarm::Stream) {
+    pub(crate) fn set_stream(&mut self, stream: crate::RawStream) {
         // Convert `AsyncWrite` stream to `Sink`
         self.sink = SinkState::Ready(FramedWrite::new(stream, Codec));
     }
